@@ -59,7 +59,7 @@ func DSLModel(t *rapid.T, o DSLOpts) *Model {
 			m.Conds = append(m.Conds, c.condition(usedC))
 			c.conds = append(c.conds, m.Conds[i].Name)
 		}
-		if tw := caseTwin(t, c.conds, usedC, "condTwin"); tw != "" {
+		if tw := caseTwinKind(t, c.conds, usedC, "condTwin", IdentPlain); tw != "" {
 			cd := c.condition(map[string]bool{})
 			cd.Name = tw
 			m.Conds = append(m.Conds, cd)
@@ -234,6 +234,12 @@ func (c *dslCtx) condition(used map[string]bool) Condition {
 // caseTwin returns, for one name list in ten, a name that differs from one of the given names only in the case of its
 // first letter ("viewer" / "Viewer"): different names for the library, equal under case folding.
 func caseTwin(t *rapid.T, names []string, used map[string]bool, label string) string {
+	return caseTwinKind(t, names, used, label, IdentExtended)
+}
+
+// caseTwinKind: as caseTwin; for IdentPlain names (conditions, parameters) the twin must not be one of the keywords that are
+// usable as type/relation names only ("Type" -> "type" is no condition name: conditionName is IDENTIFIER).
+func caseTwinKind(t *rapid.T, names []string, used map[string]bool, label string, kind IdentKind) string {
 	if len(names) == 0 || rapid.IntRange(0, 9).Draw(t, label) != 0 {
 		return ""
 	}
@@ -251,6 +257,9 @@ func caseTwin(t *rapid.T, names []string, used map[string]bool, label string) st
 		if used[f] || reservedDefault[f] || reservedCondMode[f] || !singleToken(f) {
 			return ""
 		}
+		if kind == IdentPlain && isKeywordName(f) {
+			return ""
+		}
 		used[f] = true
 		return f
 	}
@@ -264,7 +273,7 @@ func caseTwinParam(t *rapid.T, ps []Param) *Param {
 		used[p.Name] = true
 		names = append(names, p.Name)
 	}
-	tw := caseTwin(t, names, used, "paramTwin")
+	tw := caseTwinKind(t, names, used, "paramTwin", IdentPlain)
 	if tw == "" {
 		return nil
 	}
